@@ -468,3 +468,11 @@ def rule_deps(ctx):
 
 
 RULES.append(("C11.k", "sub-models are registered under parent.child (C16.c): the name reported in Panic / NoRecipient is the qualified one", rule_deps))
+
+
+def rule_scoped_keys(ctx):
+    from . import scopedkey
+    scopedkey.rules(ctx)
+
+
+RULES.append(("C11.l", "scoped thread-local keys install, hand out and restore the right pointer: the model id / simulation context a failure is attributed to is the one installed for the running task", rule_scoped_keys))
